@@ -177,17 +177,44 @@ def run_check(pid, tier, replay=None):
         elif hasattr(prop, 'replay'):
             ctx = Ctx(pid, tier, seed, False)
             ok = prop.replay(ctx, payload)        # None = not handled by the property's own replay
-        if ok is None:
+        alone = ok
+        if ok is None or ok is True:
             # generic replay: regenerate the run's cases from the recorded seed and tier (generation is
-            # deterministic), run them on the implementation only, and look for the recorded input
+            # deterministic), run them on the implementation only, and look for the recorded input.  Also done when
+            # the input passes on its own: a failure may need the history of the run (something remembered in the
+            # process from earlier inputs) to show.
             fl = payload['failure']
             ctx = Ctx(pid, fl.get('tier', payload.get('tier', tier)), fl.get('seed', payload.get('seed', seed)), False)
-            prop.run(ctx)
+            try:
+                prop.run(ctx)
+            except Exception:  # noqa
+                if not any((f.get('signature') or {}).get('kind') == 'family' for f in ctx.failures):
+                    raise
             target = json.dumps(payload['failure']['input'], sort_keys=True, default=str)
-            ctx.failures = [f for f in ctx.failures if json.dumps(f['input'], sort_keys=True, default=str) == target]
+            same_input = [f for f in ctx.failures if json.dumps(f['input'], sort_keys=True, default=str) == target]
+            same_kind = [f for f in ctx.failures if (f.get('signature') or {}) == (fl.get('signature') or {})
+                         and not match_known(f, findings, pid)]
+            if not same_input and same_kind:
+                # which input trips over something the process remembers depends on the order of evaluation; the run
+                # still fails in the same way
+                print('the recorded input does not fail this time, but %d other input(s) of the same run fail in the same '
+                      'way (the failure depends on what the process has seen before); first of them shown' % len(same_kind))
+                same_input = same_kind[:1]
+            ctx.failures = same_input
             ok = not ctx.failures
+            if alone is True and not ok:
+                print('the input passes on its own but fails in the course of the run it was found in (seed %s): the '
+                      'failure depends on what the process has seen before' % fl.get('seed'))
+        # a failure that is an open known finding is reported as such, as in a normal run
+        known = [f for f in ctx.failures if match_known(f, findings, pid)]
+        for f in known:
+            print('KNOWN-FINDING: property=%s %s' % (pid, match_known(f, findings, pid).get('what', '')[:200]))
+        fresh = [f for f in ctx.failures if not match_known(f, findings, pid)]
+        if not ok and not fresh and (payload['failure'].get('signature') != (known[0].get('signature') if known else None)):
+            # what fails now on this input is only the known finding - not what the replay file recorded
+            ok = True
         print('replay %s: %s' % (replay, 'property holds on this input now' if ok else 'STILL FAILS'))
-        for f in ctx.failures:
+        for f in fresh:
             print(json.dumps(f, default=str)[:2000])
         return 0 if ok else 1
 
